@@ -485,7 +485,8 @@ def r6_components(program, rep):
     # none of the placement helpers may re-write them in place (C17-R1)
     from . import C17
     rep.guard("C17-R1", C17.r1_for, program, rep,
-              ["rig.place_and_route.place.utils"])
+              ["rig.place_and_route.place.utils",
+               "rig.place_and_route.wrapper"])
     rep.guard("C04-R2", C04.r2_default, program, rep)
     rep.guard("C04-R3", C04.r3_ranges, program, rep)
     rep.guard("C04-R3", C04.r3_upcheck_all_members, program, rep)
